@@ -175,6 +175,7 @@ fn c13_defs(out: &mut dyn Write, tier: &str, rng: &mut Rng, st: &mut Stats) {
         let pf = match parse(&main_text) { Some(p) => p, None => continue };
         let mut defs: Vec<(String, String)> = Vec::new(); // current definitions: name -> text
         let mut foreign: Vec<String> = Vec::new(); // names currently defined by a diagram of ANOTHER environment
+        let mut ever_foreign = false;
         let steps = 3 + rng.below(5);
         for _ in 0..steps {
             if rng.chance(1, 2) {
@@ -190,7 +191,9 @@ fn c13_defs(out: &mut dyn Write, tier: &str, rng: &mut Rng, st: &mut Stats) {
                     let as_bdd = !fixref && h % 11 != 3 && (rng.chance(1, 3) || (h % 11 >= 6 && h % 11 <= 8)) && !text.contains('{');
                     let given = if as_bdd { match eval_guarded(&d) { Ok(b) => Some(ReferenceContents::BDD(b)), Err(_) => None } } else { None };
                     foreign.retain(|n| n != which);
-                    match given { Some(g) => { pf.define(which, g); foreign.push(which.to_string()); st.hit("defs.define.bdd"); } None => pf.define(which, ReferenceContents::Syntax(d.bdd.clone())) }
+                    // (once a diagram of another environment has been handed in, its nodes may sit below nodes of this
+                    // environment's table for good: the table check is off for the rest of this history)
+                    match given { Some(g) => { pf.define(which, g); foreign.push(which.to_string()); ever_foreign = true; st.hit("defs.define.bdd"); } None => pf.define(which, ReferenceContents::Syntax(d.bdd.clone())) }
                     defs.retain(|(n, _)| n != which);
                     defs.push((which.to_string(), text));
                     st.hit("defs.define");
@@ -202,7 +205,7 @@ fn c13_defs(out: &mut dyn Write, tier: &str, rng: &mut Rng, st: &mut Stats) {
                 Ok(b) => {
                     // sharing: unless a diagram of another environment is among the definitions, everything reachable
                     // from the result is the table's own node (an undefined reference is the shared false leaf)
-                    if foreign.is_empty() { st.hit("defs.table"); if let Some(k) = off_table(&pf.env, &b) { writeln!(out, "C13|table|{}", k).unwrap(); } }
+                    if foreign.is_empty() && !ever_foreign { st.hit("defs.table"); if let Some(k) = off_table(&pf.env, &b) { writeln!(out, "C13|table|{}", k).unwrap(); } }
                     show_ns(&b)
                 }
                 Err(_) => "PANIC".to_string(),
